@@ -14,11 +14,11 @@ ASSUMPTIONS = ["rapidfuzz Levenshtein.distance follows its documented contract (
                "CrossHair symbolic str/int semantics, dict/set display plugin (vlib/plugin.py), z3"]
 
 
-def _body(shape, k, entry):
+def _body(shape, k, entry, among=None):
     def body():
         import pyrepseq
         from vlib import sym
-        seqs = [sym.sym_str(f"s{i}", n) for i, n in enumerate(shape)]
+        seqs = [sym.sym_str(f"s{i}", n, among=among) for i, n in enumerate(shape)]
         fn = getattr(pyrepseq, entry)
         got = fn(seqs, max_edits=k)
         if not isinstance(got, list):
@@ -55,10 +55,10 @@ def _replay(shape, k, entry):
     return replay
 
 
-def _mk(shape, k, entry="nearest_neighbor", budget=120):
-    cid = f"C01/{entry}/len={','.join(map(str, shape))}/k={k}"
-    return Condition(cid, _body(shape, k, entry), _replay(shape, k, entry), budget=budget,
-                     bounds=f"{len(shape)} free Unicode strings of lengths {shape}, max_edits={k}",
+def _mk(shape, k, entry="nearest_neighbor", budget=120, among=None):
+    cid = f"C01/{entry}/len={','.join(map(str, shape))}/k={k}" + (f"/{among}" if among else "")
+    return Condition(cid, _body(shape, k, entry, among), _replay(shape, k, entry), budget=budget,
+                     bounds=f"{len(shape)} free " + (f"strings over the letters {among}" if among else "Unicode strings") + f" of lengths {shape}, max_edits={k}",
                      models=("rf",))
 
 
@@ -85,6 +85,9 @@ def conditions(tier):
             out.append(_mk(shape, k))
     out.append(_mk((1, 1, 1, 1), 1))
     out.append(_mk((1, 1, 0, 0), 1))
+    # equal-length frame-shifted pairs at the largest radius ('ACA' / 'CAC': distance 2 with 3 mismatches) - two letters keep (3,3) k=3 cheap
+    out.append(_mk((3, 3), 3, among="AC", budget=600))
+    out.append(_mk((3, 3), 3, entry="symdel", among="AC", budget=600))
     out.append(_mk((2, 2), 1, entry="symdel"))
     out.append(_mk((3, 2), 2, entry="symdel"))
     if tier == "thorough":
